@@ -621,8 +621,27 @@ def _nmr_defs():
     return {"total_natural_mass": nat, "total_isotope_mass": iso}
 
 
-U_NAT_RATIO = Unit("Formula.natural_mass_ratio", F + "natural_mass_ratio", _nmr_inputs, _nmr_post,
-                   contracts=CALLEE, loops={(F + "natural_mass_ratio", 1): {"define": _nmr_defs()}},
+def c_ion_of_valid(interp, st, args, kw):
+    """base.ion[q] for a charge q carried by an ion of base (or of one of its isotopes): defined by
+    the table invariant L1 (isotopes share their element's ion list), so it never raises here"""
+    from . import core as KC
+    a = args[0].attrs["atom"].expr
+    q = to_z3num(interp.resolve(st, args[1]))
+    e = KC.ION_OF(a, q)
+    st.assume(z3.And(T.KIND(e) == 2, T.BASE(e) == a, T.CHARGE(e) == q, T.NUMBER(e) == T.NUMBER(a), T.ISO(e) == T.ISO(a)))
+    return ATOMS.sym(st, e)
+
+
+def _nmr_inputs2(st, interp):
+    from . import core as KC
+    r = _nmr_inputs(st, interp)
+    st.ghost["atom_attr"] = KC._atom_attr
+    return r
+
+
+U_NAT_RATIO = Unit("Formula.natural_mass_ratio", F + "natural_mass_ratio", _nmr_inputs2, _nmr_post,
+                   contracts=dict(CALLEE, **{"IonSetOf.__getitem__": c_ion_of_valid}),
+                   inline={CORE + ".ision", CORE + ".isisotope"}, loops={(F + "natural_mass_ratio", 1): {"define": _nmr_defs()}},
                    replay={"module": "c12", "task": "replay"})
 
 
